@@ -22,3 +22,5 @@ mod c32_descriptor;
 mod c35_sizeclass;
 #[cfg(kani)]
 mod c38_heapsize;
+#[cfg(kani)]
+mod c21_bulk;
